@@ -31,6 +31,40 @@ CHECKS: dict[str, tuple[str, str, str, str, str, str]] = {
     ),
 }
 
+CHECKS.update({
+    "C01": (
+        "model_checking",
+        "enumerator",
+        "explicit-state search over (stream, bytes delivered) states of the real APIPlaintextFrameHelper: every p->q chunk "
+        "transition x chunk type is executed and must land on the canonical one-call state (state-merging induction), plus direct "
+        "enumeration of all 2^(n-1) segmentations of short streams and all <=2-cut segmentations; oracle = independent framer",
+        "For each stream of the frame alphabet every (prefix p, chunk p..q, buffer type) transition of the real helper is executed; "
+        "landing on the one-call state with exactly the frames ending in (p,q] delivered proves, by induction, every segmentation "
+        "over the cut set with any mix of buffer types. Short streams are additionally cut in all 2^(n-1) ways.",
+        BASE + "; the helper has no state outside its slots (only the induction relies on this)",
+        "DESIGN.md §3 C01",
+    ),
+    "C02": (
+        "exploration",
+        "enumerator",
+        "exhaustive enumeration of type ids / payload lengths / batch shapes and a 66k-frame write history through the real "
+        "write path, decoded by an independent plaintext decoder and an independent Noise responder (own nonce counter)",
+        "Every write_packets/send_messages call over the stated alphabet is decoded by codecs that share no code with the client; "
+        "the Noise receive counter of the reference only advances by one per frame, so any nonce gap or repeat fails authentication.",
+        BASE,
+        "DESIGN.md §3 C02",
+    ),
+    "C13": (
+        "exploration",
+        "enumerator",
+        "exhaustive three-way comparison (api.proto text parsed independently / compiled descriptors / library id tables) over all "
+        "messages, fields, enums and options, plus an API-surface sweep of every public APIClient method in a simulated session",
+        "The domain is finite (123 ids, 135 messages, 49 public methods x 4 negotiated versions) and is enumerated completely.",
+        BASE,
+        "DESIGN.md §3 C13",
+    ),
+})
+
 NOT_APPLICABLE: dict[str, str] = {}
 
 
